@@ -60,6 +60,7 @@ def run(ctx):
     ctx.rule('R10.1', 'every strategy->side mapping site selects the entity of that side (tryresolve, generic resolver, list P/R arm, three renderers, merge_render)', floor=14)
     ctx.rule('R10.2', 'generic resolution sets the action and clears the conflict flag together, only for conflicted decisions without an applied strategy', floor=1)
     ctx.rule('R10.4', 'conflicted decisions created by the mergers carry no strategy tag (tagged decisions are skipped by the root resolver)', floor=2)
+    ctx.rule('R10.5', 'in the mergers no arm dispatching on a use-* strategy value precedes an arm that settles a non-conflict by picking a side', floor=1)
     ctx.rule('R10.3', 'the root strategy is applied last on every path of decide_merge_with_diff; use-* given as merge strategy becomes the root strategy and the per-field strategies', floor=3)
 
     sites = [
@@ -153,6 +154,46 @@ def run(ctx):
                              'a decision is created conflicted AND tagged with a strategy: resolve_strategy_generic skips tagged decisions, so use-* leaves it unresolved', c)
     if n44 == 0:
         raise AnalysisError('no conflict=True decision call found in merging/generic.py')
+
+    # ---------------------------------------------------------------- R10.5 a use-* arm never shadows a non-conflict arm
+    # "merge with conflicts left open, then resolve every conflict to that side" only lets the strategy decide *conflicts*;
+    # an arm that picks a side without declaring a conflict (transient-only edit loses against a deletion, ...) is a
+    # non-conflict outcome and must be tried before any arm that dispatches on a use-* strategy value.
+    n55 = 0
+    for fid, fn in sorted(repo.functions.items()):
+        if not fid.startswith(GEN + ':'):
+            continue
+        for n in walk_no_nested(fn):
+            if not isinstance(n, ast.If) or (isinstance(repo.parent(n), ast.If) and repo.parent(n).orelse == [n]):
+                continue
+            arms, els = if_chain(n)
+            kinds = []
+            for t, body, nd in arms:
+                strat_vars = [x for x in ast.walk(t) if isinstance(x, ast.Name) and x.id.endswith('strategy')]
+                uses = [c.value for c in ast.walk(t) if isinstance(c, ast.Constant) and isinstance(c.value, str) and c.value.startswith('use-')]
+                if strat_vars and uses:
+                    kinds.append(('strategy', t))
+                    continue
+                picks = []
+                for st in body:
+                    if isinstance(st, ast.Expr) and isinstance(st.value, ast.Call) and isinstance(st.value.func, ast.Attribute) and \
+                            dotted(st.value.func.value) == 'decisions' and st.value.func.attr in ('local', 'remote', 'base', 'agreement', 'onesided'):
+                        kw = {k.arg: k.value for k in st.value.keywords}
+                        if not ('conflict' in kw and const_val(kw['conflict']) is not False):
+                            picks.append(st.value)
+                kinds.append(('pick', picks[0]) if picks and not strat_vars else ('other', t))
+            if not any(k == 'strategy' for k, _ in kinds):
+                continue
+            first = [i for i, (k, _) in enumerate(kinds) if k == 'strategy'][0]
+            late = [(i, x) for i, (k, x) in enumerate(kinds) if k == 'pick' and i > first]
+            n55 += 1
+            ctx.inst('R10.5', fid, 'chain at `%s`: arms %s' % (repo.norm(arms[0][0])[:60], [k for k, _ in kinds]), not late,
+                     'every arm that settles a non-conflict by picking a side precedes the use-* dispatch' if not late else
+                     'arm %d (%s) settles a NON-conflict but is tried only after the use-* strategy arm %d: with a use-* strategy the strategy decides '
+                     'a situation that is no conflict when conflicts are left open' % (late[0][0], repo.norm(late[0][1])[:80], first),
+                     late[0][1] if late else n)
+    if n55 == 0:
+        raise AnalysisError('no chain dispatching on a use-* strategy found in merging/generic.py')
 
     # ---------------------------------------------------------------- R10.3
     dm = repo.func(GEN + ':decide_merge_with_diff')
